@@ -3,7 +3,7 @@
     containment are judged on every engine journal by the monitor clauses (3,_)
     of [EngineMon]. *)
 From Coq Require Import List ZArith Bool Arith.
-From FF Require Import Sx TaskTree TaskTreeFacts.
+From FF Require Import Sx TaskTree TaskTreeFacts Engine EngineFacts EngineSettle EngineRefute.
 Import ListNotations.
 
 Theorem C03_failed_has_witness : forall t v,
@@ -20,3 +20,47 @@ Theorem C03_running_has_witness : forall t v,
   compute_status t = Some (TrRunning, v) -> is_active_st (status_of t v) = true.
 Proof. exact compute_status_running_witness. Qed.
 Print Assumptions C03_running_has_witness.
+
+(** --- engine level (Engine, see C01.v for the scope): whenever the owning worker has nothing in flight for
+    the instance, no command is stored or being executed and no task is recorded running, the instance is
+    settled and the verdict agrees with its tasks - for every DAG (unique ids, dependencies among the tasks,
+    acyclic as witnessed by a rank), every outcome of every phase, every interleaving of runs, parser and
+    command watcher, every crash point and every watchdog intervention.  Hypotheses on the history: commands
+    are issued and picked up only while nothing is in flight ([cmdquiet]) and every executed command re-armed
+    a task ([nonoop]); nothing is assumed about deliveries ([validate] arbitrary).  Each hypothesis is
+    necessary: the three [..._refuted] theorems are histories of the unrestricted system ending quiescent
+    and unsettled or wrongly settled; all three were replayed on the real code (known findings
+    F-stale-completion-event, F-retry-in-unregister-window, F-cmd-crash-noop / F-noop-cmd). --- *)
+
+Theorem C03_engine_settles_and_agrees : forall tasks deps validate (rank : Z -> nat),
+  NoDup tasks ->
+  (forall t d, In d (deps t) -> (rank d < rank t)%nat) ->
+  (forall t d, In t tasks -> In d (deps t) -> In d tasks) ->
+  forall ls s, run tasks deps validate true true boot ls = Some s -> Quiescent tasks s ->
+  ins s <> IRunning /\
+  (ins s = ISuccess <-> forall t, In t tasks -> store s t = SSuccess) /\
+  (ins s = IFailed -> exists t, In t tasks /\ store s t = SFailed).
+Proof.
+  intros tasks deps validate rank Hnd Hrank Hclosed ls s Hr Hq.
+  apply (settled tasks deps s); [|exact Hq].
+  exact (invq_reach tasks deps validate rank Hnd Hrank Hclosed ls boot s (invq_boot tasks deps) Hr).
+Qed.
+Print Assumptions C03_engine_settles_and_agrees.
+
+Theorem C03_engine_stale_event_refuted :
+  exists s, run [1]%Z nodeps true false true boot w_stale_event = Some s /\
+            Quiescent [1]%Z s /\ ins s = IFailed /\ store s 1%Z = SInit.
+Proof. exact stale_event_refuted. Qed.
+Print Assumptions C03_engine_stale_event_refuted.
+
+Theorem C03_engine_unregister_window_refuted :
+  exists s, run [1]%Z nodeps true false true boot w_window = Some s /\
+            Quiescent [1]%Z s /\ ins s = IFailed /\ store s 1%Z = SRetrying.
+Proof. exact unregister_window_refuted. Qed.
+Print Assumptions C03_engine_unregister_window_refuted.
+
+Theorem C03_engine_noop_after_crash_refuted :
+  exists s, run [1]%Z nodeps true true false boot w_noop_after_crash = Some s /\
+            Quiescent [1]%Z s /\ ins s = IRunning /\ store s 1%Z = SRetrying.
+Proof. exact noop_after_crash_refuted. Qed.
+Print Assumptions C03_engine_noop_after_crash_refuted.
